@@ -410,6 +410,13 @@ class ModelInterp(MiniEval):
         return None
 
     def construct(self, c: ClassRef, args: list, kwargs: dict) -> Any:
+        """A project class with an explicit __init__ in its MRO: a fresh stand-in whose __init__ is interpreted."""
+        for q in self.a.ct.mro(c.q):
+            ci = self.a.p.classes.get(q)
+            if ci is not None and '__init__' in ci.methods:
+                inst = Stub(c.q)
+                self.call_bound(Bound(inst, ci.methods['__init__']), args, kwargs)
+                return inst
         raise Unsupported(f'construction of {c.q}')
 
     # try/except and with inside interpreted code
